@@ -29,7 +29,7 @@ def gnot(g):
     return z3.Not(g)
 
 def is_conc(x):
-    return isinstance(x, (bool, int, Fraction, str, tuple)) and not is_symt(x)
+    return isinstance(x, (bool, int, float, Fraction, str, tuple)) and not is_symt(x)
 
 def is_symt(x):
     if isinstance(x, tuple):
@@ -40,6 +40,7 @@ def to_z3(x):
     if isinstance(x, z3.ExprRef): return x
     if isinstance(x, bool): return z3.BoolVal(x)
     if isinstance(x, int): return z3.IntVal(x)
+    if isinstance(x, float): x = Fraction(x)      # the exact value of the double
     if isinstance(x, Fraction):
         if x.denominator == 1: return z3.IntVal(int(x))
         return z3.RealVal(x)
